@@ -46,6 +46,8 @@ pub struct Explorer<'a> {
     pub ext: bool,
     pub invariant: Option<Invariant<'a>>,
     pub keep_states: bool,
+    /// operation gating (e.g. mint only while under the supply cap); None = always enabled
+    pub enabled: Option<&'a (dyn Fn(&StartState, usize) -> bool + Sync)>,
 }
 
 fn state_key(s: &StartState) -> u128 {
@@ -91,6 +93,11 @@ impl Explorer<'_> {
                     with_world(self.ext, |world| {
                         for es in chunk {
                             for (oi, op) in self.alphabet.iter().enumerate() {
+                                if let Some(en) = self.enabled {
+                                    if !en(&es.s, oi) {
+                                        continue;
+                                    }
+                                }
                                 let (real, model) = run_one(ctx, world, &fam, &es.s, op.clone(), self.homes, &mut lst, "");
                                 let mst = resync(world, &real, model.st, &mut lst);
                                 let ns = StartState { name: String::new(), storage: real.final_storage, block: es.s.block.clone(), mstate: mst };
